@@ -963,6 +963,36 @@ func c10Select(c *Ctx, p *Prog) {
 		}
 	}
 	c.Floor(R, "minimum-selection cases", n, 3)
+	// "there was no non-zero value" is decided by a value no magnitude can have: wherever the running minimum is
+	// compared with a constant for equality, the constant is 0 (a sentinel such as MaxFloat64 is itself a magnitude a
+	// measurement can have, and a set whose only non-zero value equals it is then taken for all-zero)
+	if minPhi != nil {
+		ns := 0
+		for _, g := range cands {
+			eachInstr(g, func(_ *ssa.BasicBlock, in ssa.Instruction) {
+				bo, ok := in.(*ssa.BinOp)
+				if !ok || (bo.Op != token.EQL && bo.Op != token.NEQ) || bo.X != ssa.Value(minPhi) {
+					return
+				}
+				k, ok := bo.Y.(*ssa.Const)
+				if !ok || k.Value == nil {
+					return
+				}
+				ns++
+				c.Check(constant.Sign(k.Value) == 0, R, fmt.Sprintf("CommonScale:unset-minimum#%d", ns), p.pos(bo.Pos()), "the unset minimum is recognised by the value 0",
+					"the running minimum is compared with the non-zero constant "+k.Value.String()+" to decide whether a non-zero value was seen: that constant is a magnitude a measurement can have, so a row whose only non-zero value equals it is scaled as if it were all zeros")
+			})
+		}
+		// also the start value of the running minimum
+		for i, e := range minPhi.Edges {
+			if lp.Blocks[lp.Header.Preds[i]] {
+				continue
+			}
+			if k, ok := e.(*ssa.Const); ok && k.Value != nil {
+				c.Check(constant.Sign(k.Value) == 0, R, "CommonScale:minimum-start", site, "the running minimum starts unset (0)", "the running minimum starts at "+k.Value.String()+", a value a measurement can have, instead of the unset value 0")
+			}
+		}
+	}
 }
 
 func c10Format(c *Ctx, p *Prog) {
